@@ -112,15 +112,27 @@ func stOf(t *Task) Status {
 //@   ensures forall x *Task :: x != t ==> x.status == old(x.status)
 //@   ensures forall x *Task :: x.waitTasks == old(x.waitTasks) && x.haltTasks == old(x.haltTasks) && x.atTime == old(x.atTime) && x.state == old(x.state) && x.id == old(x.id) && x.lanes == old(x.lanes) && x.waitedStatus == old(x.waitedStatus)
 
+// "once ready, never in progress again": a task that is in a ready status is moved back to an unready
+// one only while its change has not been marked ready
+//@ define changeMarkedReady(t *Task) = t.state.changes[t.change] != nil && !t.state.changes[t.change].readyTime.IsZero()
+
 //@ func (*Task).SetStatus
-//@   props C01
+//@   props C01 C03
+//@   requires [no-unready-after-ready] stOf(t).Ready() && !new.Ready() && new != WaitStatus ==> !changeMarkedReady(t)
 //@   ensures old(t.status) == AbortStatus && new == DoneStatus ==> t.status == AbortStatus
 //@   ensures !(old(t.status) == AbortStatus && new == DoneStatus) ==> t.status == new
 //@   ensures forall x *Task :: x != t ==> x.status == old(x.status)
 //@   ensures forall x *Task :: x.waitTasks == old(x.waitTasks) && x.haltTasks == old(x.haltTasks) && x.atTime == old(x.atTime) && x.state == old(x.state) && x.id == old(x.id) && x.lanes == old(x.lanes) && x.waitedStatus == old(x.waitedStatus)
 
+// looking up the handlers of a task consults the registered "optional handler" match predicates, which
+// are assumed not to modify state (T5)
+//@ func (*TaskRunner).handlerPair
+//@   trusted
+//@   assigns nothing
+
 //@ func (*TaskRunner).tryUndo
-//@   props C01
+//@   props C01 C03
+//@   requires stOf(t) == AbortStatus
 //@   ensures stOf(t) == HoldStatus || stOf(t) == UndoStatus
 
 // ---- C02 / C07: what Ensure establishes before it starts a task ---------------------------
@@ -134,7 +146,7 @@ func stOf(t *Task) Status {
 //@   ensures result == blockedBy(recv, arg0, arg1)
 
 //@ func (*TaskRunner).Ensure
-//@   props C02 C07
+//@   props C02 C07 C03
 //@   guard call run: !mustWaitSpec(arg1)
 //@   guard call run: arg1.atTime.IsZero() || !ensureTime.Before(arg1.atTime)
 //@   guard call run: forall j int :: 0 <= j && j < len(r.blocked) ==> !blockedBy(r.blocked[j], arg1, running)
